@@ -54,6 +54,17 @@ def check_hooke(inp, out):
     bpe = pe.strain(spe[0], spe[1], spe[3])
     if not close(bpe, [s[0], s[1], s[3]], 1e-10, 1e-12):
         v.append(("plane strain: strain(stress(e)) != e", case, [s[0], s[1], s[3]], [float(x) for x in bpe]))
+    # components of mixed types: the integer literal 0 (or an integer array) next to fractional values
+    fr = [0, 1.25e-3, -2.5e-4, 0, 7.5e-4, 0]
+    ref3 = h3.stress(*[float(x) for x in fr])
+    mix3 = h3.stress(*fr)
+    mixa = h3.stress(np.array([0, 0]), np.array([1.25e-3, 1.25e-3]), np.array([-2.5e-4, -2.5e-4]), np.array([0, 0]), np.array([7.5e-4, 7.5e-4]), np.array([0, 0]))
+    if not (close(np.asarray(mix3, dtype=np.float64).ravel(), np.asarray(ref3, dtype=np.float64).ravel(), 1e-15, 0) and close(np.asarray([np.asarray(c)[0] for c in mixa], dtype=np.float64), np.asarray(ref3, dtype=np.float64).ravel(), 1e-15, 0)):
+        v.append(("3D Hooke: integer-typed components next to fractional ones give other stresses than the same numbers as floats", {'E': E, 'nu': nu, 'strain': fr}, [float(x) for x in np.asarray(ref3).ravel()], [float(x) for x in np.asarray(mix3, dtype=np.float64).ravel()]))
+    s2 = ps.strain(0, 120.5, 0)
+    s2f = ps.strain(0.0, 120.5, 0.0)
+    if not close(np.asarray(s2, dtype=np.float64).ravel(), np.asarray(s2f, dtype=np.float64).ravel(), 1e-15, 0):
+        v.append(("plane stress: integer-typed components next to fractional ones give other strains", {'E': E, 'nu': nu}, [float(x) for x in np.asarray(s2f).ravel()], [float(x) for x in np.asarray(s2, dtype=np.float64).ravel()]))
     h1 = HookesLaw1d(E)
     if not (close(h1.stress(h1.strain(s[0])), s[0]) and close(h1.strain(s[0]), s[0] / E)):
         v.append(("1D Hooke not invertible", case, s[0], float(h1.stress(h1.strain(s[0])))))
@@ -165,6 +176,31 @@ def check_moduli(inp, out):
     return v
 
 
+def extreme_ro(chk):
+    """Very small hardening exponents with a strength coefficient in Pa: K^(1/n) is beyond the floating-point range, (s/K)^(1/n) is not."""
+    from pylife.materiallaws.rambgood import RambergOsgood
+    with warnings.catch_warnings():
+        warnings.simplefilter('ignore')
+        for E, K, n in ((2.1e11, 1.0e9, 0.02), (2.1e11, 1.2e9, 0.01), (7.0e4, 600.0, 0.005)):
+            ro = RambergOsgood(E, K, n)
+            for q in (0.3, 0.6, 0.8, 1.01):
+                chk.evals(1)
+                s = q * K
+                case = {'E': E, 'K': K, 'n': n, 'stress': s}
+                try:
+                    eps = float(ro.strain(s))
+                    want = s / E + q ** (1.0 / n)
+                    c = float(ro.tangential_compliance(s))
+                    wc = 1.0 / E + (1.0 / (n * K)) * q ** (1.0 / n - 1.0)
+                    m = float(ro.tangential_modulus(s))
+                    if not (close(eps, want, 1e-12, 0) and close(c, wc, 1e-11, 0) and close(m * c, 1.0, 1e-12, 0)):
+                        chk.violation('Ramberg-Osgood strain / tangential compliance / modulus wrong for a very small hardening exponent', case, [want, wc], [eps, c, m], part='extreme_ro')
+                    else:
+                        chk.nontrivial(('extreme_ro', E, K, n, q))
+                except Exception as ex:
+                    chk.violation('Ramberg-Osgood raised %r for a very small hardening exponent' % ex, case, part='extreme_ro')
+
+
 def true_stress_strain(chk):
     from pylife.materiallaws import true_stress_strain as T
     for e in [-0.5, -0.02, -1e-3, 0.0, 1e-3, 0.02, 0.5, 2.0]:
@@ -208,6 +244,7 @@ def run(chk):
     chk.evals(n)
     chk.cov['traces_validated_against_impl'] = n
     true_stress_strain(chk)
+    extreme_ro(chk)
     chk.cov['rule'] = ('TLC enumerates E x nu (5 values incl. negative and 2/5) x 216 sparse stress states for Hooke, and E x K x m in {2,3,5,8} (n = 1/m covers the FKM range) x 9 stress levels '
                        'incl. the onset of yielding for Ramberg-Osgood, in exact rationals; each state is evaluated through the real classes (scalar and array), inverses are required within '
                        'the solver\'s documented tolerance. true_strain (a logarithm) has no lattice and is checked numerically only.')
